@@ -115,9 +115,16 @@ func (c *Canon) rotByLatch(b *ssa.BasicBlock) *rotLoop {
 	return nil
 }
 
-// rotExitPhi: v sits in the exit block of a rotated loop and merges, from the pre-test and the
-// latch, exactly the two inputs of a loop-carried phi of the body; that phi is returned.
-func (c *Canon) rotExitPhi(v *ssa.Phi) (*ssa.Phi, *rotLoop) {
+type rotExit struct {
+	carried *ssa.Phi
+	rl      *rotLoop
+}
+
+// rotExits: v sits in the exit block of one or more rotated loops and merges, from a loop's
+// pre-test and latch, exactly the two inputs of a loop-carried phi of its body; those phis are
+// returned with their loops.
+func (c *Canon) rotExits(v *ssa.Phi) []rotExit {
+	var out []rotExit
 	for _, rl := range c.rotLoops() {
 		if rl.done != v.Block() {
 			continue
@@ -149,9 +156,18 @@ func (c *Canon) rotExitPhi(v *ssa.Phi) (*ssa.Phi, *rotLoop) {
 				}
 			}
 			if bp == fromPre && bl == fromLatch {
-				return ph, rl
+				out = append(out, rotExit{ph, rl})
+				break
 			}
 		}
+	}
+	return out
+}
+
+// rotExitPhi: the single-loop case of rotExits.
+func (c *Canon) rotExitPhi(v *ssa.Phi) (*ssa.Phi, *rotLoop) {
+	if xs := c.rotExits(v); len(xs) > 0 {
+		return xs[0].carried, xs[0].rl
 	}
 	return nil, nil
 }
